@@ -100,12 +100,9 @@ def observe(entry):
     label, kind, build, options, args, debug = entry
     objs = build()
     p = ffcx.options.get_options(dict(options))
-    tag = jit._compute_option_signature(p) + jit._compilation_signature(args, debug)
-    prefix = "libffcx_forms_" if kind == "form" else "libffcx_expressions_"
-    if p["part"] == "diagonal":
-        pass  # scalar spaces: compile_forms leaves the forms untouched
     try:
-        name = prefix + ffcx.naming.compute_signature(objs, tag)
+        cap = hist.real_names(objs, options, args, debug)
+        name, onames = cap["module"], cap["objects"]
     except Exception as e:  # noqa: BLE001
         return dict(label=label, module=f"signature-raises:{type(e).__name__}:{label}", source="-", build=(tuple(args), debug), objects=[])
     try:
@@ -115,10 +112,6 @@ def observe(entry):
         src = hashlib.sha1(norm.encode()).hexdigest()
     except Exception as e:  # noqa: BLE001
         src = f"generation-raises:{type(e).__name__}"
-    if kind == "form":
-        onames = [ffcx.naming.form_name(f, i, name) for i, f in enumerate(objs)]
-    else:
-        onames = [ffcx.naming.expression_name(x, name) for x in objs]
     return dict(label=label, module=name, source=src, build=(tuple(args), debug), objects=onames)
 
 
@@ -149,6 +142,59 @@ def separation():
         if len(set(o["objects"])) != len(o["objects"]):
             fails.append((o["label"], "", f"object names within one module are not distinct: {o['objects']}"))
     return len(obs), npairs, fails, obs
+
+
+def pair_histories():
+    """(d) every ordered pair (a, b) of same-sized expression requests as a two-step history in THIS process: request a is named and
+    released (its objects garbage collected), then b is built and named; b's names must equal those of b named with everything alive."""
+    import gc
+
+    import basix.ufl
+    import ufl
+
+    el = basix.ufl.element
+    pts = np.array([[0.25, 0.25], [0.5, 0.125]])
+
+    def mk(fn):
+        def build():
+            m = ufl.Mesh(el("P", "triangle", 1, shape=(2,)))
+            c = ufl.Coefficient(ufl.FunctionSpace(m, el("P", "triangle", 2)))
+            return [(fn(c), pts)]
+        return build
+    variants = {"sin": mk(ufl.sin), "cos": mk(ufl.cos), "exp": mk(ufl.exp), "tan": mk(ufl.tan), "sq": mk(lambda c: c * c), "neg": mk(lambda c: -c), "grad": mk(ufl.grad), "abs": mk(abs)}
+    alive = {k: b() for k, b in variants.items()}
+    fresh = {k: hist.real_names(o, {})["module"] for k, o in alive.items()}
+    fails = []
+    n = 0
+    if len(set(fresh.values())) != len(fresh):
+        fails.append(("alive", "alive", f"different expressions share a module name: {fresh}"))
+    for a, b in itertools.permutations(variants, 2):
+        n += 1
+        oa = variants[a]()
+        hist.real_names(oa, {})
+        del oa
+        gc.collect()
+        ob = variants[b]()
+        nb = hist.real_names(ob, {})["module"]
+        del ob
+        gc.collect()
+        if nb != fresh[b]:
+            fails.append((a, b, f"after naming and releasing the request '{a}', the request '{b}' is named {nb[-10:]} instead of {fresh[b][-10:]}"
+                          + (f" (the name of '{a}')" if nb == fresh[a] else "")))
+    return n, fails
+
+
+def config_jobs():
+    """(e) options arriving through ffcx_options.json files must separate names exactly like options passed through the API."""
+    return [("none", dict()), ("pwd:float32", dict(config={"scalar_type": "float32"})), ("user:float32", dict(user_config={"scalar_type": "float32"})),
+            ("api:float32", dict(options={"scalar_type": "float32"})), ("pwd:rtol", dict(config={"table_rtol": 1e-3})), ("api:rtol", dict(options={"table_rtol": 1e-3})),
+            ("user:atol", dict(user_config={"table_atol": 1e-5})), ("api:atol", dict(options={"table_atol": 1e-5}))]
+
+
+def work_config(item):
+    label, kw = item
+    targets = ["mass-P1-tri", "expression", "mixed-TH"]
+    return dict(label=label, result=hist.run_history((), 0, targets, names=True, **kw))
 
 
 def multi_object_requests():
@@ -262,6 +308,29 @@ def main():
         cov["traces_validated_against_impl"] += 1
         if r["outcome"] != "built":
             chk.violation(f"{PID}:multi-object:{lab}", f"request '{lab}' does not build: {r['outcome']}: {r.get('detail', '')}", recipe=dict(kind="multi", label=lab), observed=r)
+    # (d)
+    npair_h, pf = pair_histories()
+    cov["in_process_pair_histories"] = npair_h
+    cov["states"] += npair_h
+    for a_, b_, text in pf:
+        chk.violation(f"{PID}:pair-history:{a_}->{b_}", text, recipe=dict(kind="pair-history", a=a_, b=b_))
+    # (e)
+    cres = {}
+    for it, r in pmap(work_config, config_jobs(), desc="C13e"):
+        cres[r["label"]] = r["result"]
+        cov["states"] += 1
+    if any("error" in v for v in cres.values()):
+        print("HARNESS-ERROR: config job failed", {k: v.get("error", "")[-200:] for k, v in cres.items() if "error" in v})
+        raise SystemExit(2)
+    for t in cres["none"]:
+        for same_a, same_b in (("pwd:float32", "api:float32"), ("user:float32", "api:float32"), ("pwd:rtol", "api:rtol"), ("user:atol", "api:atol")):
+            if cres[same_a][t]["module"] != cres[same_b][t]["module"]:
+                chk.violation(f"{PID}:config:{t}:{same_a}!={same_b}", f"target {t}: the same option given through {same_a.split(':')[0]} ffcx_options.json and through the API yields different module names",
+                              recipe=dict(kind="config", a=same_a, b=same_b, target=t))
+        for d_a, d_b in (("none", "pwd:float32"), ("none", "user:float32"), ("none", "pwd:rtol"), ("none", "user:atol"), ("pwd:float32", "user:atol")):
+            if cres[d_a][t]["module"] == cres[d_b][t]["module"] and cres[d_a][t]["sha"] != cres[d_b][t]["sha"]:
+                chk.violation(f"{PID}:config:{t}:{d_a}=={d_b}", f"target {t}: option sources {d_a} and {d_b} generate different code but share the module name {cres[d_a][t]['module'][-10:]}",
+                              recipe=dict(kind="config", a=d_a, b=d_b, target=t))
     # (a)
     depth = 2 if chk.thorough else 1
     seeds = [0, 1, 2, 3, 4, 5, 6, 7] if chk.thorough else [0, 1, 2]
